@@ -83,6 +83,33 @@ structure AfInfo where
   variables : AfVariables
   deriving DecidableEq, Repr, Inhabited
 
+/-- the arguments of `set_adaptive_fee_constants` (instructions/adaptive_fee/set_adaptive_fee_constants.rs): each one optional -/
+structure AfRequest where
+  filterPeriod : Option Nat := none
+  decayPeriod : Option Nat := none
+  reductionFactor : Option Nat := none
+  controlFactor : Option Nat := none
+  maxVolAcc : Option Nat := none
+  groupSize : Option Nat := none
+  majorSwapThresholdTicks : Option Nat := none
+  deriving Repr
+
+/-- `x.unwrap_or(existing.x)` field by field -/
+def AfRequest.apply (r : AfRequest) (c : AfConstants) : AfConstants :=
+  { filterPeriod := r.filterPeriod.getD c.filterPeriod, decayPeriod := r.decayPeriod.getD c.decayPeriod,
+    reductionFactor := r.reductionFactor.getD c.reductionFactor, controlFactor := r.controlFactor.getD c.controlFactor,
+    maxVolAcc := r.maxVolAcc.getD c.maxVolAcc, groupSize := r.groupSize.getD c.groupSize,
+    majorSwapThresholdTicks := r.majorSwapThresholdTicks.getD c.majorSwapThresholdTicks }
+
+/-- the handler of `set_adaptive_fee_constants` on the pool's Oracle: merge, refuse a request that changes nothing,
+    validate for the pool's tick spacing (`Oracle::initialize_adaptive_fee_constants`), store, and RESET the variables
+    (`reset_adaptive_fee_variables`) -/
+def setAdaptiveFeeConstants (tickSpacing : Nat) (info : AfInfo) (r : AfRequest) : R AfInfo :=
+  let c := r.apply info.constants
+  if c = info.constants then .error .AdaptiveFeeConstantsUnchanged
+  else if validateConstants tickSpacing c then .ok { constants := c, variables := {} }
+  else .error .InvalidAdaptiveFeeConstants
+
 structure AdaptiveMgr where
   aToB : Bool
   groupIndex : Int
